@@ -45,6 +45,9 @@ Record cfg := mkCfg { g_graceful : bool; g_proto : proto }.
 Inductive ev :=
 | EConnect (k : kind)     (* a client queues a connect and waits for the ack *)
 | ECancelled              (* a client queues a connect and goes away (per-connection fault) *)
+| EConnectDead            (* tcp / unix: a client completes the transport-level connect and resets or
+                             closes before the server accepts: the acceptor will hand over a dead
+                             connection (per-connection fault) *)
 | ELost                   (* every client handle is dropped: the listener is lost *)
 | EMakeFail               (* the make-service will fail for the next connection *)
 | ESignal                 (* the shutdown signal resolves *)
@@ -245,6 +248,14 @@ Definition make_signal (g : cfg) (s : state) : state :=
   | None => s
   end.
 
+(* the driver of a connection whose client was gone before it was accepted: the first read fails
+   (or meets EOF), the error is swallowed, the driver ends *)
+Definition reap (c : nat) (s : state) : state :=
+  match get c s with
+  | Some x => if c_gone x && live x then emit (ODone c) (modc c w_closed s) else s
+  | None => s
+  end.
+
 (* poll_once iterated by the greedy loop, state Accepting, over the requests queued so far;
    GracefulShutdown::poll polls the signal at the top of EVERY iteration *)
 Fixpoint accept_loop (g : cfg) (q : list qent) (s : state) : state :=
@@ -264,7 +275,7 @@ Fixpoint accept_loop (g : cfg) (q : list qent) (s : state) : state :=
               if s_armed s1
               then finish false (set_queue q' (set_armed false (modc c (w_ph Dropped) s1)))   (* Err MakeService *)
               else accept_loop g q'                        (* Some conn: spawn; Preparing -> Accepting *)
-                     (make_signal g (emit (OSpawn c) (modc c (spawn_ph g) s1)))
+                     (make_signal g (reap c (emit (OSpawn c) (modc c (spawn_ph g) s1))))
           | _ => accept_loop g q' s
           end
       | None => accept_loop g q' s
@@ -386,12 +397,19 @@ Definition act_garb (c : nat) (s : state) : state :=
 
 Definition new_conn (k : kind) : conn := mkConn k Queued false false (kind_eqb k KCut) [] false false false.
 
+(* the client of the connection just queued is gone already (its kind no longer matters) *)
+Definition mark_dead (c : nat) (s : state) : state := emit (OFault c) (modc c w_gone s).
+
+(* a connect request of a client of kind k reaches the listener *)
+Definition connect (s : state) (k : kind) : state :=
+  let c := length (s_conns s) in
+  let s1 := emit (OConnect c) (set_conns (s_conns s ++ [new_conn k]) s) in
+  if srv_done s || s_lost s then s1 else set_queue (s_queue s1 ++ [QLive c]) s1.
+
 Definition step (g : cfg) (s : state) (e : ev) : state :=
   match e with
-  | EConnect k =>
-      let c := length (s_conns s) in
-      let s1 := emit (OConnect c) (set_conns (s_conns s ++ [new_conn k]) s) in
-      if srv_done s || s_lost s then s1 else set_queue (s_queue s1 ++ [QLive c]) s1
+  | EConnectDead => mark_dead (length (s_conns s)) (connect s KH1)
+  | EConnect k => connect s k
   | ECancelled =>
       let s1 := emit OCancel s in
       if srv_done s || s_lost s then s1 else set_queue (s_queue s1 ++ [QDead]) s1
